@@ -10,7 +10,11 @@ exactly when read runs (so peek alone never consumes), peek runs only when valid
 callers of `read` a transferred item is consumed by exactly one of them (and both callers of `peek` may look at it).
 StreamModuleWrapper: wrapped around two trivial pass-through stream modules (wires; one register stage); the monitors
 run on the module's own `i` and `o` interfaces (what the wrapped module sees is a correct producer and consumer) and
-end-to-end (k-th read returns the k-th written item).
+end-to-end (k-th read returns the k-th written item).  Typed interface: around a wire whose input and output payload shapes
+differ but have the same width (unsigned/signed, two different structs) callers use the typed views of write's argument and of
+read's result; every leaf field, extended into an 8-bit signed signal, must equal the corresponding field of the module's own
+payload extended by the shape the MODULE declares (a wrapper that types a side with the other side's shape fails here or
+cannot be elaborated by such a caller).
 """
 import z3
 from ..harness import Harness, Built
@@ -23,8 +27,8 @@ TECHNIQUE = ("BMC from reset with protocol/sequence monitors over symbolic items
              "combinational proof for StreamSink (z3 QF_BV on the netlist of the real components), counterexamples replayed on amaranth.sim")
 BOUNDS = {
     "quick": "2-bit payload; StreamSource BMC 6 + one-step relation from any register state; StreamSink complete (stateless); "
-             "StreamModuleWrapper around a wire pass-through and a one-register pass-through, BMC 6",
-    "thorough": "payload 1, 2, 4 bits and a 2-field struct (1+2 bits); StreamSource BMC 10 + one-step relation; StreamSink complete; wrapper BMC 10",
+             "StreamModuleWrapper around a wire pass-through and a one-register pass-through, BMC 6; typed interface for (i, o) payload shapes (unsigned 4, signed 4), (signed 4, unsigned 4), (struct a:1 b:s3, struct x:s3 y:1), complete (two cycles from reset: write, then read through the stateless wire)",
+    "thorough": "payload 1, 2, 4 bits and a 2-field struct (1+2 bits); StreamSource BMC 10 + one-step relation; StreamSink complete; wrapper BMC 10; typed interface additionally for (unsigned 4, struct) and (struct, signed 4)",
 }
 OUTSIDE = ["payload shapes other than the enumerated ones", "wrapped modules other than the two pass-through modules (the wrapper itself contains no logic besides source and sink)",
            "histories longer than the BMC bound for the wrapper", "eventual acceptance of writes (liveness)"]
@@ -46,6 +50,9 @@ def configs(tier, seed):
         out.append(dict(comp="sink2", shape=sh))
         for mod in ("wire", "reg"):
             out.append(dict(comp="wrapper", module=mod, shape=sh, K=K))
+    # typed interfaces: wrapped modules whose input and output payload shapes differ but have the same width
+    for io in (("u4", "s4"), ("s4", "u4"), ("sab", "sxy")) + ((("u4", "sab"), ("sxy", "s4")) if tier != "quick" else ()):
+        out.append(dict(comp="typed", i=io[0], o=io[1]))
     return out
 
 
@@ -54,21 +61,32 @@ def _shape(kind):
 
     if kind == "s":
         return data.StructLayout({"a": 1, "b": 2}), 3
+    if kind in ("u4", "s4"):
+        from amaranth import signed, unsigned
+        return (signed(4) if kind == "s4" else unsigned(4)), 4
+    if kind == "sab":
+        from amaranth import signed
+        return data.StructLayout({"a": 1, "b": signed(3)}), 4
+    if kind == "sxy":
+        from amaranth import signed
+        return data.StructLayout({"x": signed(3), "y": 1}), 4
     return int(kind), int(kind)
 
 
-def _module(kind, shape):
-    from amaranth import Module
+def _module(kind, shape, oshape=None):
+    from amaranth import Module, Value
     from amaranth.lib import stream, wiring
     from amaranth.lib.wiring import In, Out
 
+    oshape = shape if oshape is None else oshape
+
     class Wire(wiring.Component):
         def __init__(self):
-            super().__init__({"i": In(stream.Signature(shape)), "o": Out(stream.Signature(shape))})
+            super().__init__({"i": In(stream.Signature(shape)), "o": Out(stream.Signature(oshape))})
 
         def elaborate(self, platform):
             m = Module()
-            m.d.comb += [self.o.valid.eq(self.i.valid), self.o.payload.eq(self.i.payload), self.i.ready.eq(self.o.ready)]
+            m.d.comb += [self.o.valid.eq(self.i.valid), Value.cast(self.o.payload).eq(Value.cast(self.i.payload)), self.i.ready.eq(self.o.ready)]
             return m
 
     class Reg(Wire):
@@ -88,6 +106,8 @@ def make(cfg):
     from amaranth import Value
     from transactron.lib.stream import StreamSource, StreamSink, StreamModuleWrapper
 
+    if cfg["comp"] == "typed":
+        return _make_typed(cfg)
     shape, _ = _shape(cfg["shape"])
     if cfg["comp"] == "source":
         d = StreamSource(shape)
@@ -105,6 +125,93 @@ def make(cfg):
     obs = lambda d: {"mi_valid": mod.i.valid, "mi_ready": mod.i.ready, "mi_payload": Value.cast(mod.i.payload),
                      "mo_valid": mod.o.valid, "mo_ready": mod.o.ready, "mo_payload": Value.cast(mod.o.payload)}
     return Harness(d, {"write": d.write, "read": d.read}, observe=obs)
+
+
+def _typed_fields(kind):
+    """leaf fields of a payload shape as the documentation of the wrapped module states them: (path, lsb, width, signed)."""
+    return {"u4": [((), 0, 4, False)], "s4": [((), 0, 4, True)],
+            "sab": [(("a",), 0, 1, False), (("b",), 1, 3, True)],
+            "sxy": [(("x",), 0, 3, True), (("y",), 3, 1, False)]}[kind]
+
+
+def _make_typed(cfg):
+    """StreamModuleWrapper around a wire whose `i` and `o` payload shapes differ (same width).  The callers use the TYPED views of
+    `write`'s argument and of `read`'s result: every leaf field of the result is copied into an 8-bit signed signal (Amaranth
+    extends it according to the shape the wrapper declared for it), every leaf field of the argument likewise."""
+    from amaranth import Module, Signal, Value, signed, Elaboratable
+    from transactron.lib.stream import StreamModuleWrapper
+
+    ish, _ = _shape(cfg["i"])
+    osh, _ = _shape(cfg["o"])
+    mod = _module("wire", ish, osh)
+    d = StreamModuleWrapper(mod)
+    sigs = {}
+
+    def leaf(view, path):
+        for f in path:
+            view = getattr(view, f)
+        return view
+
+    class Typed(Elaboratable):
+        def __init__(self, h):
+            self.h = h
+
+        def elaborate(self, platform):
+            m = Module()
+            for side, ad, val, kind in (("rd", self.h.ad["read"], lambda a: a.data_out.data, cfg["o"]),
+                                        ("wr", self.h.ad["write"], lambda a: a.data_in.data, cfg["i"])):
+                for path, _lsb, _w, _sg in _typed_fields(kind):
+                    s = Signal(signed(8), name="typed_" + side + "_" + "_".join(path))
+                    sigs[side + "." + ".".join(path)] = s
+                    m.d.comb += s.eq(leaf(val(ad), path))
+            return m
+
+    h = Harness(d, {"write": d.write, "read": d.read},
+                observe=lambda d: dict({"mi_payload": Value.cast(mod.i.payload), "mo_payload": Value.cast(mod.o.payload),
+                                        "mo_valid": mod.o.valid, "mi_valid": mod.i.valid}, **sigs))
+    h.subs["typed"] = Typed(h)
+    return h
+
+
+def _run_typed(cfg, ctx):
+    name = f"StreamModuleWrapper typed interface (module.i: {cfg['i']}, module.o: {cfg['o']}): "
+    try:
+        b = Built(lambda: make(cfg), trace_functions=(ctx.index == 0))
+    except (AttributeError, TypeError, ValueError) as e:
+        first = f"{type(e).__name__}: {e}"
+        try:
+            Built(lambda: make(cfg))
+        except (AttributeError, TypeError, ValueError) as e2:
+            if f"{type(e2).__name__}: {e2}" == first:
+                ctx._record(name + "write takes the module's input payload shape, read returns its output payload shape (callers elaborate)",
+                            "obligation", "sat", 0.0)
+                ctx.violation(name + "a caller using the fields of the module's payload shapes cannot be elaborated", first,
+                              "reproduced by a second, fresh elaboration")
+                return
+        raise
+    ctx.functions = b.functions
+    # StreamSource is a one-slot register: cycle 0 writes (from reset: empty), cycle 1 shows the item to the module and reads it
+    u = Unroll(b)
+    o0 = u.cycle()
+    u.advance()
+    o = u.cycle()
+    ctx.frames += 2
+    ctx.steps += 1
+
+    def ext(bits, lsb, w, sg):
+        x = z3.Extract(lsb + w - 1, lsb, bits)
+        return z3.SignExt(8 - w, x) if sg else z3.ZeroExt(8 - w, x)
+
+    rd, wr0 = o.done("read"), o0.done("write")
+    ctx.witness(name + "an item is written and read in the next cycle", [wr0, rd])
+    ctx.witness(name + "a negative / high item is read", [rd, z3.Extract(3, 3, o.sig("mo_payload")) == 1, z3.Extract(2, 2, o.sig("mo_payload")) == 1])
+    for path, lsb, w, sg in _typed_fields(cfg["o"]):
+        ctx.prove(name + f"read result field {'.'.join(path) or 'data'} is the module's output payload field, extended by ITS shape ({'signed' if sg else 'unsigned'} {w})",
+                  [rd], o.sig("rd." + ".".join(path)) == ext(o.sig("mo_payload"), lsb, w, sg), u)
+    for path, lsb, w, sg in _typed_fields(cfg["i"]):
+        ctx.prove(name + f"write argument field {'.'.join(path) or 'data'} reaches the module's input payload field unchanged",
+                  [wr0], z3.And(o0.sig("wr." + ".".join(path)) == ext(o.sig("mi_payload"), lsb, w, sg), o.sig("mi_valid") == 1), u)
+    ctx.prove(name + "the item passes through bit-exact", [wr0, rd], z3.And(o.out("read") == o.sig("mo_payload"), o.out("read") == o0.arg("write")), u)
 
 
 def _source_monitor(st, o, N, valid, ready, payload, pre=""):
@@ -166,6 +273,8 @@ def _step_wrapper(cfg):
 
 
 def run(cfg, ctx):
+    if cfg["comp"] == "typed":
+        return _run_typed(cfg, ctx)
     b = Built(lambda: make(cfg), trace_functions=(ctx.index == 0))
     ctx.functions = b.functions
     _, dw = _shape(cfg["shape"])
